@@ -144,4 +144,47 @@ def pairStats (es : List Val) : Nat × Nat × Nat :=
           x.2.2 + (if se != su then 1 else 0))) acc)
   go ds (0, 0, 0)
 
+/-! ## One list of field names per node type (what every real `ast` tree satisfies) -/
+
+def nodupB : List Str → Bool
+  | [] => true
+  | x :: t => !t.contains x && nodupB t
+
+def schemaGet (sch : List (Str × List Str)) (ty : Str) : List Str := (sch.lookup ty).getD []
+
+mutual
+/-- Every node of type `ty` has exactly the field names `sch` gives for `ty`, in that order, without repetition
+(an `ast` class has one `_fields` tuple; `ast.iter_fields` follows it). -/
+def conforms (sch : List (Str × List Str)) : Val → Bool
+  | .node ty _ _ _ fs =>
+    (fs.map Prod.fst == schemaGet sch ty) && nodupB (fs.map Prod.fst) && conformsFields sch fs
+  | .list _ xs => conformsItems sch xs
+  | .scalar _ _ => true
+def conformsFields (sch : List (Str × List Str)) : List (Str × Val) → Bool
+  | [] => true
+  | (_, v) :: rest => conforms sch v && conformsFields sch rest
+def conformsItems (sch : List (Str × List Str)) : List Val → Bool
+  | [] => true
+  | v :: rest => conforms sch v && conformsItems sch rest
+end
+
+mutual
+/-- The schema read off a tree: for each node type, the field names of its first node in pre-order. -/
+def schemaAcc : Val → List (Str × List Str) → List (Str × List Str)
+  | .node ty _ _ _ fs, acc =>
+    schemaAccFields fs (match acc.lookup ty with
+      | some _ => acc
+      | none => acc ++ [(ty, fs.map Prod.fst)])
+  | .list _ xs, acc => schemaAccItems xs acc
+  | .scalar _ _, acc => acc
+def schemaAccFields : List (Str × Val) → List (Str × List Str) → List (Str × List Str)
+  | [], acc => acc
+  | (_, v) :: rest, acc => schemaAccFields rest (schemaAcc v acc)
+def schemaAccItems : List Val → List (Str × List Str) → List (Str × List Str)
+  | [], acc => acc
+  | v :: rest, acc => schemaAccItems rest (schemaAcc v acc)
+end
+
+def schemaOf (t : Val) : List (Str × List Str) := schemaAcc t []
+
 end Paroxy.Flat
